@@ -52,6 +52,12 @@ func At(ll orb.Point, z Zoom) Tile {
 		Z: z,
 	}
 
+	// a longitude of 180 (or the float just below it) maps to x == 2^z,
+	// snap it to the last column so the tile is valid.
+	if max := uint32(1) << uint32(z); max > 0 && t.X >= max {
+		t.X = max - 1
+	}
+
 	return t
 }
 
